@@ -36,6 +36,7 @@ var gatedEvents = map[string]string{
 	"WaitNilUnlock": "WaitNilUnlock", "PreWaitErrLock": "WaitErrLock", "WaitErrCancel": "WaitErrCancel",
 	"WaitErrUnlock": "WaitErrUnlock", "PreDrainRecv": "WaitDrainRecv", "WaitReturnErr": "WaitReturnErr",
 	"WaitReturnNil": "WaitReturnNil", "WaitSleep": "WaitSleep",
+	"PreJoin": "JoinBegin", "Joined": "JoinEnd", "JoinFailed": "JoinFailed", "JoinCancelled": "JoinCancelled",
 }
 
 func newGates(s []SchedStep) *gates {
@@ -142,7 +143,7 @@ func (g *gates) activate(onCancel func()) {
 // Spawn* events are matched by name only (the spawner is whoever is due in the schedule).
 func (g *gates) procMatches(p int64, ev string, core int64) bool {
 	switch ev {
-	case "Offer":
+	case "Offer", "JoinBegin", "JoinEnd", "JoinFailed", "JoinCancelled": // (join events carry the thread which is joined)
 		return p == core+g.offset
 	case "SpawnLock", "SpawnAppend", "SpawnUnlock", "SpawnGo":
 		return true
